@@ -342,6 +342,8 @@ def execute(stim):
             st['loop'], st['t0'] = loop, loop.time()
             if stim.get('pre_abort'):
                 circuit.abort(Boom(900))
+            if stim.get('pre_finalize'):
+                circuit.finalize()          # the application may finalize the circuit itself: still not running
             for op in stim.get('pre_ops', []):
                 send_ext(circuit, op)
             done = asyncio.Event()
